@@ -31,6 +31,9 @@ fn constructs(lang: &str) -> Vec<String> {
         "= A1 + B2 ", "=A1+ B2", "=A1 +B2", "=  $A$1", "=A1#", "=@A1", "=XFD1048576", "=AA10+A1%", "=-A1^B2",
         "=#REF!+A1", "=NoSheet!A1", "=NoSheet!A1:B2", "=nm+A1", "=A1<>B1", "=A1<=$B1", "=A1&B$1&\"$C$1\"",
         "=(A1+B2)*(C3-$D$4)", "=A1+A1+A1", "=A1:B2:C3", "=A1%%", "=--A1", "=A1^-B2",
+        // runs of blanks (longer than the sheet prefix) in front of sheet-qualified and plain references
+        "=1+    S!A1", "=1+      S!$A1", "=SUM(    ab!B2:C3)", "=      'My Sheet'!A1+1", "=1+     A1", "=(      Sheet2!A:B)",
+        "=1+\tS!A1", "=1+  S!A1  +  S!B2",
     ]
     .iter()
     .map(|s| s.to_string())
